@@ -99,3 +99,93 @@ def unit_h0_guards(nb, hermitian, timeout_ms=20000):
         eng.oblige("symbolic-nonzero-off-diagonal-block-warns", z3.BoolVal(len(warned) == len(nsym)))
     return run_unit(f"block_diagonalization:block_diagonalize/H0-guards[{nb} blocks,{'hermitian' if hermitian else 'general'}]", harness,
                     functions=[(MODULE, "block_diagonalize")], timeout_ms=timeout_ms, max_paths=20000)
+
+
+# ------------------------------------------------------------------------------------------------
+def norm_fragment():
+    """The statements of block_diagonalize that normalise `fully_diagonalize` (from `if H.shape[0] == 1:` to the
+    dict conversion of scalar expressions, i.e. up to the assignment of `zero_order`)."""
+    fn = frontend.find(MODULE, "block_diagonalize")
+    body = fn.body
+    start = end = None
+    for k, st in enumerate(body):
+        if start is None and isinstance(st, ast.If) and ast.unparse(st.test).replace(" ", "") == "H.shape[0]==1":
+            start = k
+        if start is not None and isinstance(st, ast.Assign) and any(isinstance(t, ast.Name) and t.id == "zero_order" for t in st.targets):
+            end = k
+            break
+    if start is None or end is None:
+        raise frontend.SourceError("fully_diagonalize normalisation fragment of block_diagonalize not found")
+    return body[start:end]
+
+
+def unit_fully_diagonalize_normalisation(nb, given, timeout_ms=20000):
+    """given in {'empty', 'list', 'ndarray', 'dict'}: what the caller passed as `fully_diagonalize`.
+    Postcondition (meaning of the argument, from the docstring): an empty sequence means 'fully diagonalize block 0' for a single
+    block and 'eliminate nothing inside blocks' otherwise; a list of block indices is kept; a bare array is the elimination mask
+    of the single block (an error for several blocks); a dict is kept entry by entry - in particular a mask that eliminates nothing
+    stays a mask (it does not turn into 'fully diagonalize')."""
+    def harness(eng):
+        frag = norm_fragment()
+        masks = {b: Val(f"mask[{b}]", ("ndarray",)) for b in (0, nb - 1)}
+        bare = Val("bare_mask", ("ndarray",))
+        # whether an array mask has any True entry is up to the environment (a mask may eliminate nothing)
+        any_true = eng.fresh("mask_has_a_true_entry", "bool")
+        T_getattr = T.m_getattr
+
+        def patched(self, e, name):
+            if name == "any":
+                return Builtin("any", lambda e2: SB(any_true))
+            return T_getattr(self, e, name)
+        if given == "empty":
+            fd = STup([])
+        elif given == "list":
+            fd = STup([0])
+        elif given == "ndarray":
+            fd = bare
+        else:
+            fd = dict(masks)
+
+        class H(Model):
+            def m_getattr(s, e, name):
+                if name == "shape":
+                    return STup([nb, nb])
+                if name == "n_infinite":
+                    return 1
+                raise Unsupported(f"H.{name}")
+        eng.globals.update({"np": Namespace("np", {"ndarray": TypeObj("ndarray")}),
+                            "sympy": Namespace("sympy", {"MatrixBase": TypeObj("MatrixBase"), "Expr": TypeObj("Expr"),
+                                                         "Matrix": Builtin("Matrix", lambda e, x: T("sympy.Matrix", x))})})
+        env = Env(None, {"H": H(), "fully_diagonalize": fd, "hermitian": True})
+        T.m_getattr = patched
+        try:
+            try:
+                for st in frag:
+                    eng.exec_stmt(st, env)
+            except PyRaise as pr:
+                eng.oblige("raises-only-ValueError-for-a-bare-array-with-several-blocks", z3.BoolVal(pr.exc.cls == "ValueError" and given == "ndarray" and nb > 1), detail=pr.exc.cls)
+                return
+        finally:
+            T.m_getattr = T_getattr
+        out = env.lookup("fully_diagonalize")
+        if given == "ndarray":
+            eng.oblige("bare-array-with-several-blocks-is-rejected", z3.BoolVal(nb == 1))
+            ok = isinstance(out, dict) and list(out) == [0] and out[0] is bare
+            eng.oblige("bare-array-becomes-the-mask-of-block-0", z3.BoolVal(ok), detail=repr(out)[:200])
+        elif given == "dict":
+            ok = isinstance(out, dict) and set(out) <= set(masks) and all(out[k] is masks[k] for k in out)
+            missing = isinstance(out, dict) and set(out) != set(masks)
+            # with several blocks a block whose mask eliminates nothing behaves like a block without mask (diag = identity, offdiag = 0),
+            # so dropping such an entry is value-preserving; for a single block it would turn into 'fully diagonalize' and is not
+            allowed = z3.And(z3.Not(any_true), z3.BoolVal(nb > 1)) if missing else z3.BoolVal(True)
+            eng.oblige("dict-of-masks-is-kept-entry-by-entry", z3.And(z3.BoolVal(ok), allowed),
+                       detail=f"a mask must stay the mask of its block (an entry may only be dropped if it eliminates nothing and there are several blocks); got {out!r}"[:300])
+        elif given == "list":
+            o = eng.as_seq(out) if not isinstance(out, dict) else None
+            eng.oblige("list-of-block-indices-is-kept", z3.BoolVal(o is not None and o.items == [0]), detail=repr(out)[:200])
+        else:
+            o = eng.as_seq(out) if not isinstance(out, dict) else None
+            want = [0] if nb == 1 else []
+            eng.oblige("empty-means-block-0-for-a-single-block-and-nothing-otherwise", z3.BoolVal(o is not None and o.items == want), detail=repr(out)[:200])
+    return run_unit(f"block_diagonalization:block_diagonalize/fully_diagonalize-normalisation[{nb} blocks,{given}]", harness,
+                    functions=[(MODULE, "block_diagonalize")], timeout_ms=timeout_ms)
